@@ -25,7 +25,7 @@ PROPS = {
                 assumptions=["'attained at the model's own top/bottom' is asserted for models whose min depth is 0 and whose max depth is constant (the documentation calls the top temperature the surface temperature)",
                              "the 100-term plate series may overshoot next to the surface at young ages (Gibbs): 9% of the jump is allowed at depths shallower than 2% of the plate thickness",
                              "slab probes come from the planar construction validated by C06; ambient = background adiabat (single-feature worlds)"]),
-    "C05": dict(engine="rc", exe="c05", quick=(2, 8), thorough=(20, 16),
+    "C05": dict(engine="rc", exe="c05", quick=(2, 8), thorough=(20, 16), san=dict(quick=(0.1, 4), thorough=(1.5, 12)),
                 assumptions=["oracles are written from the parameter documentation; where it is not specific (smooth composition, Euler-angle convention, slab/fault sentinel depths) only the weaker documented part is asserted",
                              "ridge models are checked in cartesian worlds with a ridge along x = const (distance to the ridge is then |x - x_ridge| by definition)",
                              "slab/fault distances come from the planar construction validated by C06"]),
@@ -41,10 +41,10 @@ PROPS = {
                 extra_builds=[("tsan", ["c14_threads", "gwb-grid"], {"VERIF_TSAN_EXE": "c14_threads", "VERIF_TSAN_GRID": "wb/bin/gwb-grid"})],
                 assumptions=["schedules are sampled, not enumerated: ThreadSanitizer flags an unsynchronised conflicting pair whenever both accesses execute, but a race on a path no generated query reaches stays invisible",
                              "worlds without random models (the statement's scope)"]),
-    "C11": dict(engine="rc", exe="c11", quick=(2, 8), thorough=(20, 16),
+    "C11": dict(engine="rc", exe="c11", quick=(2, 8), thorough=(20, 16), san=dict(quick=(0.1, 4), thorough=(1.5, 12)),
                 assumptions=["the depth used by a feature is observed by bisection on the membership indicator (resolves to 1e-10 m, compared with 1 mm tolerance)",
                              "every corner gets the bare '[value]' entry as documented default"]),
-    "C10": dict(engine="rc", exe="c10", quick=(2, 8), thorough=(20, 16),
+    "C10": dict(engine="rc", exe="c10", quick=(2, 8), thorough=(20, 16), san=dict(quick=(0.1, 4), thorough=(1.5, 12)),
                 assumptions=["trenches bend by at most 25 degrees and probe points sit 2..30 km beside the trench, so the foot of a point generated beside trench segment k lies on segment k-1, k or k+1",
                              "models are uniform (values recognisable exactly)"]),
     "C07": dict(engine="rc", exe="c07", quick=(2, 8), thorough=(20, 16),
@@ -65,10 +65,10 @@ PROPS = {
                 fuzz=dict(targets=["fz_struct"], want=lambda sig: "non-finite" in sig),
                 assumptions=["world parameters stay inside the physical domain (positive constants, dips in (0,180), thickness > 0); degenerate *parameters* belong to C12",
                              "a query may throw std::exception with a message; it may not crash, hang (120 s per case) or return NaN/Inf"]),
-    "C15": dict(engine="rc", exe="c15", quick=(1, 4), thorough=(20, 16),
+    "C15": dict(engine="rc", exe="c15", quick=(1, 4), thorough=(20, 16), san=dict(quick=(0.1, 4), thorough=(1.5, 12)),
                 assumptions=["'a draw happened' is observed by comparing the world's public engine state before and after a query",
                              "rotation validity tolerance 1e-12 on R^T R - I and det R - 1"]),
-    "C16": dict(engine="rc", exe="c16", quick=(1, 4), thorough=(20, 16),
+    "C16": dict(engine="rc", exe="c16", quick=(1, 4), thorough=(20, 16), san=dict(quick=(0.1, 4), thorough=(1.5, 12)),
                 assumptions=["the native reference world receives exactly the same sequence of calls as the wrapped one (random models draw per call)",
                              "declaration files are observed by listing a scratch working directory"]),
     "C09": dict(engine="rc", exe="c09", quick=(2, 8), thorough=(20, 16),
@@ -77,7 +77,7 @@ PROPS = {
     "C04": dict(engine="rc", exe="c04", quick=(2, 8), thorough=(15, 16),
                 assumptions=["boundary points are asserted only where coordinates are exactly representable (cartesian lattice); elsewhere a 1e-9 relative band is skipped",
                              "plumes are kept away from the +-180 meridian here (longitude aliases of plumes belong to C08)"]),
-    "C02": dict(engine="rc", exe="c02", quick=(1, 6), thorough=(15, 16),
+    "C02": dict(engine="rc", exe="c02", quick=(1, 6), thorough=(15, 16), san=dict(quick=(0.1, 4), thorough=(1.5, 12)),
                 assumptions=["which features contain a point is decided by the code itself on single-feature worlds (independent of the stack)",
                              "fold oracle covers uniform temperature/composition models; other models are covered by the deletion/permutation relation",
                              "velocity: only 'a slab/fault without velocity models leaves the velocity as it was' is asserted"]),
@@ -86,7 +86,7 @@ PROPS = {
     "C03": dict(engine="rc", exe="c03", quick=(2, 8), thorough=(20, 16),
                 assumptions=["'outside every feature' is established by construction (far points) or by the code's own tag == -1",
                              "background closed form evaluated in double with relative tolerance 1e-13"]),
-    "C19": dict(engine="rc", exe="c19", quick=(1, 4), thorough=(12, 16),
+    "C19": dict(engine="rc", exe="c19", quick=(1, 4), thorough=(12, 16), san=dict(quick=(0.1, 4), thorough=(1.5, 12)),
                 assumptions=["dense sampling (4000 samples per curve segment) stands for 'every curve point'",
                              "exact polygon oracle restricted to coordinates whose arithmetic is exact in double",
                              "great-circle oracle atan2(|axb|,a.b) evaluated in double; tolerance 3e-8 rad"]),
